@@ -626,6 +626,170 @@ theorem objReadArr_spec (L : Layout) (hwf : L.WF) (harr : L.ArrWF) (key : Key) (
           simp only [objReadArr, hf, hras]
           exact ⟨_, _, rfl, hinv' _ rfl rfl, rfl⟩
 
+/-! ### binary scopes: byte requests and the destructor's skip loop
+
+`CMsgPackReadBinaryScope` opened on a `bin` value (one token; the token-level reader stands at it while the scope is
+open), read as far as the caller likes and destroyed: the destructor passes over the bytes that were not read, so the
+reader is behind the value whatever was left. -/
+
+/-- `SerializeValue(byte)` on a binary scope `k` times: the bytes and `mIndex` afterwards -/
+def binReads : Nat → Nat → Nat → Rd → Except Err (List Nat × Nat)
+  | 0, _, index, _ => .ok ([], index)
+  | k + 1, size, index, r =>
+    match checkEnd size index with
+    | .error e => .error e
+    | .ok () =>
+      match r.readBinary index with
+      | .error e => .error e
+      | .ok b =>
+        match binReads k size (index + 1) r with
+        | .error e => .error e
+        | .ok (bs, idx) => .ok (b :: bs, idx)
+
+theorem readBinary_at {r : Rd} {bs : List Nat} {rest' : List Tok} (h : r.rest = .bin bs :: rest') (i : Nat)
+    (hi : i < bs.length) : r.readBinary i = .ok bs[i] := by
+  simp [Rd.readBinary, h, List.getElem?_eq_getElem hi]
+
+/-- the byte requests deliver the bytes of the value in order; one past the last is OutOfRange (`CheckEnd`) -/
+theorem binReads_at {r : Rd} {bs : List Nat} {rest' : List Tok} (h : r.rest = .bin bs :: rest') :
+    ∀ (k index : Nat), index ≤ bs.length →
+    binReads k bs.length index r =
+      (if index + k ≤ bs.length then .ok ((bs.drop index).take k, index + k) else .error .outOfRange) := by
+  intro k
+  induction k with
+  | zero => intro index hi; simp [binReads, hi]
+  | succ k ih =>
+    intro index hi
+    by_cases hend : index = bs.length
+    · have : ¬ (index + (k + 1) ≤ bs.length) := by omega
+      simp [binReads, checkEnd, hend]
+    · have hlt : index < bs.length := by omega
+      have := ih (index + 1) (by omega)
+      simp only [binReads, checkEnd, hend, if_false, readBinary_at h index hlt, this]
+      by_cases hk : index + 1 + k ≤ bs.length
+      · have hk' : index + (k + 1) ≤ bs.length := by omega
+        simp only [hk, hk', if_true]
+        rw [List.drop_eq_getElem_cons hlt, List.take_succ_cons]
+        congr 2; omega
+      · have hk' : ¬ (index + (k + 1) ≤ bs.length) := by omega
+        simp only [hk, hk', if_false]
+
+theorem binCloseLoop_at {r : Rd} {bs : List Nat} {rest' : List Tok} (h : r.rest = .bin bs :: rest') :
+    ∀ (n index : Nat), index + n ≤ bs.length → binCloseLoop n index r = .ok () := by
+  intro n
+  induction n with
+  | zero => intro index _; rfl
+  | succ n ih =>
+    intro index hi
+    simp only [binCloseLoop, readBinary_at h index (by omega), bind, Except.bind]
+    exact ih (index + 1) (by omega)
+
+/-- **the binary scope's destructor**: wherever the scope stands in the payload, it leaves the reader behind the value -/
+theorem binClose_at {r : Rd} {bs : List Nat} {rest' : List Tok} (h : r.rest = .bin bs :: rest') (index : Nat)
+    (hi : index ≤ bs.length) : binClose bs.length index r = .ok { r with pos := r.pos + 1 } := by
+  simp only [binClose, binCloseLoop_at h (bs.length - index) index (by omega), bind, Except.bind, pure, Except.pure]
+
+theorem isBinary_bin {r : Rd} {bs : List Nat} {rest' : List Tok} (h : r.rest = .bin bs :: rest') : r.isBinary = .ok true := by
+  simp [Rd.isBinary, h]
+
+theorem isBinary_other {r : Rd} {t : Tok} {rest' : List Tok} (h : r.rest = t :: rest') (hn : ∀ bs, t ≠ .bin bs) :
+    r.isBinary = .ok false := by
+  unfold Rd.isBinary
+  rw [h]
+  cases t with
+  | bin bs => exact absurd rfl (hn bs)
+  | _ => rfl
+
+theorem readBinarySize_bin {r : Rd} {bs : List Nat} {rest' : List Tok} (h : r.rest = .bin bs :: rest') :
+    r.readBinarySize = .ok (some bs.length, r) := by
+  simp [Rd.readBinarySize, h]
+
+/-- `OpenBinaryScope(key)` on an object scope, `k` byte requests on the binary scope, and the destruction of the binary
+    scope wherever it then stands (`none`: the scope was not opened: absent key, or a value that is not a `bin` — that
+    value is left in place under `mCurrentKey`) -/
+def objReadBin (key : Key) (k : Nat) (o : Obj) (r : Rd) : Except Err (Option (List Nat) × Obj × Rd) :=
+  match findValueByKey key o r with
+  | .error e => .error e
+  | .ok (false, o1, r1) => .ok (none, o1, r1)
+  | .ok (true, o1, r1) =>
+    match r1.isBinary with
+    | .error e => .error e
+    | .ok false => .ok (none, o1, r1)
+    | .ok true =>
+      match r1.readBinarySize with
+      | .error e => .error e
+      | .ok (none, r2) => .ok (none, o1.onFinishChild, r2)
+      | .ok (some n, r2) =>
+        match binReads k n 0 r2 with
+        | .error e => .error e
+        | .ok (bs, idx) =>
+          match binClose n idx r2 with
+          | .error e => .error e      -- deferred to Finalize() by the destructor; impossible on a complete value (below)
+          | .ok r3 => .ok (some bs, o1.onFinishChild, r3)
+
+/-- the abstract outcome of "open the complete value `v` as a byte list, read `k` bytes, close it" -/
+inductive BinOutcome (k : Nat) (v : List Tok) : Except Err (Option (List Nat)) → Prop where
+  | bin (bs : List Nat) (h : v = [.bin bs]) :
+      BinOutcome k v (if k ≤ bs.length then .ok (some (bs.take k)) else .error .outOfRange)
+  | notBin (t : Tok) (ts : List Tok) (h : v = t :: ts) (hn : ∀ bs, t ≠ .bin bs) : BinOutcome k v (.ok none)
+
+/-- **A binary scope under a key, left wherever the caller likes**: the answers are the first `k` bytes of the stored
+    `bin` value (OutOfRange when more bytes are requested than there are), and — because the destructor skips the bytes
+    that were not read — the object scope's cursor invariant holds again afterwards. A value that is not a `bin` is left
+    in place (the invariant holds with the key still current). -/
+theorem objReadBin_spec (L : Layout) (hwf : L.WF) (key : Key) (k : Nat) (o : Obj) (r : Rd) (hinv : Inv L o r) :
+    (∃ (m : Nat) (e : Key × List Tok) (out : Except Err (Option (List Nat))),
+      L.entries[m]? = some e ∧ e.1 = key ∧ BinOutcome k e.2 out ∧
+      (match out with
+       | .ok a => ∃ o' r', objReadBin key k o r = .ok (a, o', r') ∧ Inv L o' r' ∧ r'.mis = r.mis
+       | .error err => objReadBin key k o r = .error err)) ∨
+    ((∀ m, keyAt L m ≠ some key) ∧ ∃ o' r', objReadBin key k o r = .ok (none, o', r') ∧ Inv L o' r' ∧ r'.mis = r.mis) := by
+  obtain ⟨b, o1, r1, hf, hmis, ht, hfalse⟩ := findValueByKey_spec L hwf key o r hinv
+  cases b with
+  | false =>
+    obtain ⟨hno, j', hj', hat⟩ := hfalse rfl
+    right
+    refine ⟨hno, o1, r1, ?_, ⟨j', none, hat, hj', by simp⟩, hmis⟩
+    simp [objReadBin, hf]
+  | true =>
+    obtain ⟨m, hk, hat⟩ := ht rfl
+    obtain ⟨e, he, hek, hlt⟩ := keyAt_some hk
+    left
+    rw [← hmis]
+    have hw := hwf e (List.mem_of_getElem? he)
+    have hpos : r1.pos = L.posOf m + 1 := by simpa using hat.pos
+    have hrest := rest_at_value L r1 hat.doc m e he hpos
+    cases hv : e.2 with
+    | nil => exact absurd hv hw.1
+    | cons t ts =>
+      rw [hv] at hrest
+      simp only [List.cons_append] at hrest
+      by_cases hbin : ∃ bs, t = .bin bs
+      · -- the value is a `bin`: one token
+        obtain ⟨bs, rfl⟩ := hbin
+        have hts : ts = [] := wfv_scalar_head (hv ▸ hw) rfl
+        subst hts
+        refine ⟨m, e, _, he, hek, BinOutcome.bin bs hv, ?_⟩
+        have hreads := binReads_at hrest k 0 (Nat.zero_le _)
+        simp only [Nat.zero_add, List.drop_zero] at hreads
+        by_cases hkl : k ≤ bs.length
+        · simp only [hkl, if_true] at hreads ⊢
+          have hcl := binClose_at hrest k hkl
+          refine ⟨o1.onFinishChild, { r1 with pos := r1.pos + 1 }, ?_, ?_, rfl⟩
+          · simp only [objReadBin, hf, isBinary_bin hrest, readBinarySize_bin hrest, hreads, hcl]
+          · have hs := L.posOf_succ m e he
+            rw [hv] at hs
+            simp only [List.length_cons, List.length_nil] at hs
+            exact ⟨m + 1, none, ⟨hat.doc, hat.start, hat.size, by simp [Obj.onFinishChild, hat.index], rfl,
+              by simp only [Option.isSome_none]; rw [hpos, hs]; simp⟩, by omega, by simp⟩
+        · simp only [hkl, if_false] at hreads ⊢
+          simp only [objReadBin, hf, isBinary_bin hrest, readBinarySize_bin hrest, hreads]
+      · -- a value of another type: left in place, the key stays current
+        have hn : ∀ bs, t ≠ .bin bs := fun bs h => hbin ⟨bs, h⟩
+        refine ⟨m, e, _, he, hek, BinOutcome.notBin t ts hv hn, ?_⟩
+        refine ⟨o1, r1, ?_, ⟨m, some key, hat, by omega, fun k' hk' => by cases hk'; exact hk⟩, rfl⟩
+        simp only [objReadBin, hf, isBinary_other hrest hn]
+
 /-- a freshly opened object scope satisfies the invariant -/
 theorem inv_init (L : Layout) (r : Rd) (hdoc : r.doc = L.doc) (hpos : r.pos = L.posOf 0) :
     Inv L ⟨r.pos, L.size, 0, none⟩ r :=
